@@ -1,44 +1,103 @@
 import KoordVerif.Model.C13
 import KoordVerif.Generated.C13
 /-
-Tie lemmas: the priority ranges, the forbidden (QoS, priority class) pairs and the tier
-resource-name table the model and the theorems use are those of /repo's current source
-(regenerated on every run by harness/extract/facts_c13.go; identifiers are compared by name).
+Tie lemmas: the class names, the name ↦ class switches, the priority ranges with their guard order,
+the QoS ↦ default-class and Kubernetes-QoS ↦ QoS tables, the forbidden (QoS, priority class) pairs,
+the tier resource-name table, the classes that are not translated, the resource names of the
+summary annotation and the label / annotation keys the model, the theorems and the harness use are
+those of /repo's current source (regenerated on every run by harness/extract/facts_c13.go).
+Everything is compared by the VALUE of the constants (the strings), never by a Go identifier:
+renaming an identifier is harmless, changing a value breaks a lemma here.
 -/
 namespace KoordVerif.C13
 open KoordVerif.Generated
 
-def qosIdent : QoS → String
-  | .lse => "QoSLSE" | .lsr => "QoSLSR" | .ls => "QoSLS" | .be => "QoSBE" | .system => "QoSSystem" | .none => "QoSNone"
+/-- the bytes of an (ASCII) string literal -/
+def bytes (s : String) : LStr := s.toList.map Char.toNat
 
-def pcIdent : PC → String
-  | .prod => "PriorityProd" | .mid => "PriorityMid" | .batch => "PriorityBatch" | .free => "PriorityFree" | .none => "PriorityNone"
+/-- the names the model uses are the strings of the protocol. -/
+theorem tie_model_names :
+    [QoS.lse, .lsr, .ls, .be, .system, .none].map qosName = ["LSE", "LSR", "LS", "BE", "SYSTEM", ""].map bytes ∧
+    [PC.prod, .mid, .batch, .free, .none].map pcName = ["koord-prod", "koord-mid", "koord-batch", "koord-free", ""].map bytes := by
+  decide
 
-def resIdent : Res → String
-  | .cpu => "ResourceCPU" | .memory => "ResourceMemory" | .batchCPU => "BatchCPU" | .batchMemory => "BatchMemory"
-  | .midCPU => "MidCPU" | .midMemory => "MidMemory" | .other => "?"
+/-- the resource names behind `Res` (`other` = any foreign name; the harness uses example.com/foo). -/
+def resName : Res → LStr
+  | .cpu => bytes "cpu" | .memory => bytes "memory"
+  | .batchCPU => bytes "kubernetes.io/batch-cpu" | .batchMemory => bytes "kubernetes.io/batch-memory"
+  | .midCPU => bytes "kubernetes.io/mid-cpu" | .midMemory => bytes "kubernetes.io/mid-memory"
+  | .other => bytes "example.com/foo"
 
-theorem tie_extract_ok : C13.extractOK = true := by decide
+theorem tie_extract_ok : Generated.C13.extractOK = true := by decide
 
 theorem tie_ranges :
-    stdRanges = { prodMin := C13.PriorityProdValueMin, prodMax := C13.PriorityProdValueMax,
-                  midMin := C13.PriorityMidValueMin, midMax := C13.PriorityMidValueMax,
-                  batchMin := C13.PriorityBatchValueMin, batchMax := C13.PriorityBatchValueMax,
-                  freeMin := C13.PriorityFreeValueMin, freeMax := C13.PriorityFreeValueMax } := by decide
+    stdRanges = { prodMin := Generated.C13.PriorityProdValueMin, prodMax := Generated.C13.PriorityProdValueMax,
+                  midMin := Generated.C13.PriorityMidValueMin, midMax := Generated.C13.PriorityMidValueMax,
+                  batchMin := Generated.C13.PriorityBatchValueMin, batchMax := Generated.C13.PriorityBatchValueMax,
+                  freeMin := Generated.C13.PriorityFreeValueMin, freeMax := Generated.C13.PriorityFreeValueMax } := by decide
+
+/-- getPriorityClassByPriority: the guards, in source order, with the class each returns. -/
+theorem tie_range_chain :
+    Generated.C13.priorityRanges =
+      [(stdRanges.prodMin, stdRanges.prodMax, pcName .prod), (stdRanges.midMin, stdRanges.midMax, pcName .mid),
+       (stdRanges.batchMin, stdRanges.batchMax, pcName .batch), (stdRanges.freeMin, stdRanges.freeMax, pcName .free)] ∧
+    Generated.C13.priorityRangesDefault = pcName .none := by decide
+
+/-- GetPodQoSClassByName / GetPodPriorityClassByName: exactly the model's names are recognised, each as itself. -/
+theorem tie_qos_by_name (q : QoS) :
+    (List.lookup (qosName q) Generated.C13.qosByName).getD Generated.C13.qosByNameDefault = qosName q ∧
+    qosByName (qosName q) = q := by
+  cases q <;> decide
+
+theorem tie_pc_by_name (c : PC) :
+    (List.lookup (pcName c) Generated.C13.pcByName).getD Generated.C13.pcByNameDefault = pcName c ∧
+    pcByName (pcName c) = c := by
+  cases c <;> decide
+
+theorem tie_by_name_counts : Generated.C13.qosByName.length = 5 ∧ Generated.C13.pcByName.length = 4 := by decide
+
+/-- GetPodPriorityClassWithQoS is the model's `pcOfQoS`. -/
+theorem tie_pc_of_qos (q : QoS) :
+    (List.lookup (qosName q) Generated.C13.pcOfQoS).getD Generated.C13.pcOfQoSDefault = pcName (pcOfQoS q) := by
+  cases q <;> decide
+
+/-- GetPodQoSClassWithKubeQoS: BestEffort ↦ BE (hence batch); Burstable and Guaranteed ↦ a QoS whose
+    default class is prod (the model's `if kubeBestEffort then batch else prod`). -/
+theorem tie_kube_qos :
+    List.lookup (bytes "BestEffort") Generated.C13.qosOfKubeQoS = some (qosName .be) ∧
+    (List.lookup (bytes "Burstable") Generated.C13.qosOfKubeQoS).map (fun s => pcOfQoS (qosByName s)) = some PC.prod ∧
+    (List.lookup (bytes "Guaranteed") Generated.C13.qosOfKubeQoS).map (fun s => pcOfQoS (qosByName s)) = some PC.prod := by
+  decide
 
 /-- a pair is forbidden by the model's table iff it is an argument pair of a
     `forbidSpecialQoSClassAndPriorityClass` call in clusterColocationProfileValidatingPod. -/
 theorem tie_forbidden (q : QoS) (c : PC) :
     forbiddenTable.any (fun e => decide (e.1 = q) && e.2.contains c) =
-      C13.forbidden.any (fun e => e.1 == qosIdent q && e.2.contains (pcIdent c)) := by
+      Generated.C13.forbidden.any (fun e => e.1 == qosName q && e.2.contains (pcName c)) := by
   cases q <;> cases c <;> decide
 
-theorem tie_forbidden_count : C13.forbidden.length = forbiddenTable.length := by decide
+theorem tie_forbidden_count : Generated.C13.forbidden.length = forbiddenTable.length := by decide
 
 /-- the model's ResourceNameMap is the source's composite literal. -/
 theorem tie_resource_map (pc : PC) (r : Res) :
-    (resourceNameMap pc r).map resIdent =
-      (List.lookup (pcIdent pc) Generated.C13.resourceNameMap).bind (fun m => List.lookup (resIdent r) m) := by
+    (resourceNameMap pc r).map resName =
+      (List.lookup (pcName pc) Generated.C13.resourceNameMap).bind (fun m => List.lookup (resName r) m) := by
   cases pc <;> cases r <;> decide
+
+/-- mutatePodResourceSpec returns early exactly for the classes none and prod. -/
+theorem tie_untranslated (c : PC) :
+    Generated.C13.untranslatedClasses.contains (pcName c) = decide (c = PC.none ∨ c = PC.prod) := by
+  cases c <;> decide
+
+/-- the summary annotation projects batch-cpu and batch-memory (the model's `extOf`). -/
+theorem tie_summary_resources : Generated.C13.summaryResources = [resName .batchCPU, resName .batchMemory] := by decide
+
+/-- the label and annotation keys (the literals the harness writes into generated pods and profiles). -/
+theorem tie_keys :
+    Generated.C13.labelQoS = bytes "koordinator.sh/qosClass" ∧
+    Generated.C13.labelPriorityClass = bytes "koordinator.sh/priority-class" ∧
+    Generated.C13.labelPriority = bytes "koordinator.sh/priority" ∧
+    Generated.C13.annotationExtendedResourceSpec = bytes "node.koordinator.sh/extended-resource-spec" ∧
+    Generated.C13.annotationSkipUpdateResource = bytes "config.koordinator.sh/skip-update-resources" := by decide
 
 end KoordVerif.C13
